@@ -1,0 +1,26 @@
+//go:build verif
+
+package dhcp
+
+// requestGapForVerif, when set, runs inside handleRequest right after the new lease has been
+// put into the lease table and the lease lock has been dropped, before the circuit-id index,
+// the fast-path cache entries, the QoS policy, the NAT block and the Accounting-Start are set
+// up: exactly where another goroutine's packet handler (server4 runs one per packet) or the
+// cleanup loop can run in production. No lock is held at that point.
+var requestGapForVerif = map[*Server]func(){}
+
+func (s *Server) verifRequestGap() {
+	if f := requestGapForVerif[s]; f != nil {
+		f()
+	}
+}
+
+// SetRequestGapForVerif installs (or, with nil, removes) the function run in that window.
+// Not safe for concurrent use with handleRequest: harnesses are single-threaded.
+func (s *Server) SetRequestGapForVerif(f func()) {
+	if f == nil {
+		delete(requestGapForVerif, s)
+		return
+	}
+	requestGapForVerif[s] = f
+}
